@@ -5,7 +5,7 @@ import random
 
 from .. import fmtdrv
 from ..core import unhexs
-from ..gen import TYPES, uni_text, uni_char, enc_msg, rand_ctx_bytes, CATS, FILES, FUNCS, UInt, ULongLong
+from ..gen import TYPES, uni_text, uni_char, enc_msg, rand_ctx_bytes, CATS, FILES, FUNCS, UInt, ULongLong, Float32, float32
 
 LEVEL = "exploration"
 BUILTIN = ["type", "line", "file", "function", "category", "message", "time", "threadId"]
@@ -27,8 +27,12 @@ def gen_value(rnd, depth=0):
             return ULongLong(rnd.choice([0, 2 ** 32, 2 ** 53, rnd.randint(0, 2 ** 53)]))
         if k < 0.8:
             return rnd.random() < 0.5
-        if k < 0.93:
+        if k < 0.9:
             return rnd.randint(-10 ** 6, 10 ** 6) / 8.0
+        if k < 0.94:
+            # single-precision values: everyday ones and ones that need all 9 significant digits
+            return float32(rnd.choice([0.1, 36.6, 1000.0, 999999.0, 1000001.0, 16777215.0, 1234.567, 3.4028234e38, 1.17549435e-38, -0.3,
+                                       rnd.uniform(-1e6, 1e6), rnd.uniform(-1, 1), rnd.randint(-2 ** 24, 2 ** 24) + 0.5]))
         return None
     if r < 0.7:
         return [gen_value(rnd, depth + 1) for _ in range(rnd.randint(0, 4))]
@@ -85,6 +89,9 @@ def deep_equal(exp, got):
         return got is None
     if isinstance(exp, bool) or isinstance(got, bool):
         return isinstance(exp, bool) and isinstance(got, bool) and exp == got
+    if isinstance(exp, Float32):
+        # recovered exactly = the same single-precision value, however many digits were printed
+        return isinstance(got, (int, float)) and not isinstance(got, bool) and (exp == got or float32(got) == exp)
     if isinstance(exp, (int, float)):
         return isinstance(got, (int, float)) and not isinstance(got, bool) and exp == got
     if isinstance(exp, str):
